@@ -1,1 +1,20 @@
-//! harness package hfd
+//! harness package hfd: C06 (descriptors are closed exactly once, never in use, never leaked),
+//! built against compio-driver WITHOUT feature `sync` (SharedFd = Rc based).
+pub mod prod;
+pub mod rec;
+pub mod replay;
+pub mod util;
+
+/// Compile-time proof that this build is the unsync variant: the call is ambiguous (does not
+/// compile) if SharedFd<()> is Send.
+#[allow(dead_code)]
+mod not_send {
+    pub trait AmbiguousIfSend<A> {
+        fn some_item() {}
+    }
+    impl<T: ?Sized> AmbiguousIfSend<()> for T {}
+    impl<T: ?Sized + Send> AmbiguousIfSend<u8> for T {}
+    pub fn check() {
+        let _ = <compio_driver::SharedFd<()> as AmbiguousIfSend<_>>::some_item;
+    }
+}
